@@ -31,7 +31,12 @@ struct Truth {
 
 /// An outer-layer stave stream with ALPIDE frames (7 chips per lane, ids 0..6 / 8..14), some HBFs with PhT.
 fn stream() -> Truth {
-    let mut c = LinkCfg::ol(3, 12, false);
+    stream_of(false)
+}
+
+/// The same shape on an outer-layer (layer 5) or a middle-layer (layer 3) stave: the two OB keys apply to both.
+fn stream_of(middle: bool) -> Truth {
+    let mut c = if middle { LinkCfg::ml(3, 12, false) } else { LinkCfg::ol(3, 12, false) };
     c.triggers = vec![grammar::TRG_SOC_HB_TF, grammar::TRG_PHT, grammar::TRG_HB, grammar::TRG_PHT];
     c.bc_step = 0x40;
     let ha = alpide::hit_alphabet();
@@ -302,6 +307,41 @@ pub fn run(tier: Tier) -> i32 {
                 // subset 0 (every key commented out) == no file at all
                 if *subset == 0 && *full != base.1 {
                     rep.violation(Violation { signature: "custom:default-file-changes-output".into(), description: "a file with every key commented out changes the output compared with no file".into(), replay: json!({"toml": toml}) });
+                }
+            }
+        }
+    }
+    // ---- the two outer-barrel keys on a middle-layer stave (the keys cover middle and outer layers alike)
+    {
+        let tm = stream_of(true);
+        let mut mcases: Vec<(u32, Option<(usize, i64)>)> = Vec::new();
+        for subset in [0b01000u32, 0b10000, 0b11000] {
+            mcases.push((subset, None));
+            for k in 3..5 {
+                if subset & (1 << k) != 0 {
+                    mcases.push((subset, Some((k, -1))));
+                    mcases.push((subset, Some((k, 1))));
+                }
+            }
+        }
+        let mres = par_map(&mcases, |_, (subset, wrong)| {
+            let toml = toml_for(*subset, *wrong, &tm);
+            (run_cli(&tm, Some(&toml), &mode), toml)
+        });
+        for ((subset, wrong), (r, toml)) in mcases.iter().zip(mres.iter()) {
+            match r {
+                Err(e) => rep.violation(Violation { signature: "custom:crash".into(), description: format!("{e} [middle-layer stave; toml: {}]", toml.replace('\n', "; ")), replay: json!({"toml": toml}) }),
+                Ok((codes, _, status)) => {
+                    let got: BTreeSet<&str> = codes.iter().map(|s| s.as_str()).filter(|c| custom_codes.contains(c)).collect();
+                    let want: BTreeSet<&str> = wrong.map(|(k, _)| code_of_key(k)).into_iter().collect();
+                    if got != want || *status != if want.is_empty() { Some(0) } else { Some(9) } {
+                        let kind = if want.is_subset(&got) && got != want { format!("false-alarm:{}", got.difference(&want).next().unwrap()) } else if got != want { format!("missed:{}", want.difference(&got).next().unwrap()) } else { "exit-status".to_string() };
+                        rep.violation(Violation {
+                            signature: format!("custom:middle-layer:{kind}"),
+                            description: format!("middle-layer stave, configured keys {:?}{}: codes {:?}, expected {:?}, exit {:?}", KEYS.iter().enumerate().filter(|(i, _)| subset & (1 << i) != 0).map(|(_, k)| *k).collect::<Vec<_>>(), wrong.map(|(k, d)| format!(" with {} {}1", KEYS[k], if d < 0 { "-" } else { "+" })).unwrap_or_default(), got, want, status),
+                            replay: json!({"toml": toml, "input_hex": hex(&tm.bytes)}),
+                        });
+                    }
                 }
             }
         }
